@@ -187,6 +187,12 @@ class Runtime:
             import onnx_ir as ir
 
             model = ir.from_onnx_text(m["text"])
+            if m.get("node_meta"):
+                # exporter-style per-node metadata (the text format cannot carry it): every node gets a namespace and one
+                # further key; rules that replace several nodes have to merge them
+                for i, n in enumerate(model.graph):
+                    n.metadata_props["namespace"] = f"root/block{i % 3}/{n.op_type}_{i}"
+                    n.metadata_props[("pkg.torch.onnx.class_hierarchy", "pkg.torch.onnx.fx_node", "stack")[i % 3]] = f"v{i}"
             ext = m.get("external")
             scratch = os.environ.get("DSIM_SCRATCH")
             if ext and scratch:
@@ -310,11 +316,12 @@ class Runtime:
                 calls = (("fp", f.to_function_proto), ("mp", f.to_model_proto))
                 if op.get("mp_first"):
                     calls = calls[::-1]   # the model proto is asked for before the function proto ever was
-                if r == 1 and op.get("mp_kwargs"):
-                    # calls WITH arguments in between (their results are not the subject): later default calls must not care
+                if (r == 1 and op.get("mp_kwargs") == "between") or (r == 0 and op.get("mp_kwargs") == "first"):
+                    # calls WITH arguments, before the first default call or between rounds (their own results are not the
+                    # subject): default calls must not care
                     from onnxscript.onnx_types import FLOAT
 
-                    for kw in ({"io_types": FLOAT}, {"opset_version": 17}, {"ir_version": 8}, {"opset_version": 21, "io_types": FLOAT}):
+                    for kw in ({"ir_version": 8}, {"io_types": FLOAT}, {"opset_version": 17}, {"opset_version": 21, "io_types": FLOAT}):
                         try:
                             f.to_model_proto(**kw)
                         except InjectedFault:
